@@ -68,17 +68,25 @@ impl TryFrom<&SnmpOid<'_>> for String {
 
     fn try_from(value: &SnmpOid) -> Result<Self, Self::Error> {
         let mut r = String::with_capacity(value.0.len() * 5);
-        let mut iter = value.0.iter();
-        // First two subelements
-        let first = iter.next().ok_or(SnmpError::InvalidData)?;
-        write!(r, "{}.{}", first / 40, first % 40).map_err(|_| SnmpError::InvalidData)?;
+        let mut first = true;
         let mut b = 0u32;
-        for c in iter {
+        for c in value.0.iter() {
             b = (b << 7) + ((*c as u32) & 0x7f);
             if c & 0x80 == 0 {
-                write!(r, ".{}", b).map_err(|_| SnmpError::InvalidData)?;
+                if first {
+                    // First subidentifier is 40 * X + Y with X in 0..=2,
+                    // so Y may exceed 39 under X = 2 (X.690 8.19.4)
+                    let x = (b / 40).min(2);
+                    write!(r, "{}.{}", x, b - 40 * x).map_err(|_| SnmpError::InvalidData)?;
+                    first = false;
+                } else {
+                    write!(r, ".{}", b).map_err(|_| SnmpError::InvalidData)?;
+                }
                 b = 0;
             }
+        }
+        if first {
+            return Err(SnmpError::InvalidData);
         }
         Ok(r)
     }
